@@ -818,6 +818,12 @@ for cls, tag in (('EuclideanCodebook', 'euclid'), ('CosineSimCodebook', 'cosine'
         f'{cls}.forward: order of collectives / state updates'))))
 ITEMS.append(('o_kmeans_collectives', lambda: G.emit_call_sequence('o_kmeans_collectives', VQ, 'kmeans', ('all_reduce_fn', 'sample_fn', 'batched_bincount', 'torch.argmax', 'cdist', 'l2norm', 'torch.where'), 'kmeans: order of steps')))
 
+# masking vs input projection: padded rows must be zeroed BEFORE they enter the projection (Model/NonFinite.v: 0 * inf = nan in its backward)
+ITEMS.append(('o_vq_mask_proj', lambda: G.emit_call_sequence('o_vq_mask_proj', VQ, 'VectorQuantize.forward', ('einx.where', 'torch.where', 'x.masked_fill', 'self.project_in'),
+                                                              'VectorQuantize.forward: zeroing of padded rows vs the input projection')))
+ITEMS.append(('o_rvq_mask_proj', lambda: G.emit_call_sequence('o_rvq_mask_proj', RVQ, 'ResidualVQ.forward', ('einx.where', 'torch.where', 'x.masked_fill', 'self.project_in'),
+                                                               'ResidualVQ.forward: zeroing of padded rows vs the input projection')))
+
 
 # einops patterns (G3)
 for name, fname, qual in (('pat_vq_forward', VQ, 'VectorQuantize.forward'), ('pat_vq_split', VQ, 'VectorQuantize.maybe_split_heads_from_input'),
